@@ -144,6 +144,9 @@ fn explore_rel(t: Tier, shard: usize, f: &mut dyn FnMut(&RelCase) -> Verdict) {
                 if ch.is_ascii_alphanumeric() || "-.+~".contains(ch) {
                     f(&RelCase { skel: sk, v: vec![], subst: false, ident: Some((cp, false)) });
                     f(&RelCase { skel: sk, v: vec![], subst: false, ident: Some((cp, true)) });
+                    for pos in 2u32..=5 {
+                        f(&RelCase { skel: sk, v: vec![], subst: pos == 5, ident: Some((cp | (pos << 12), false)) });
+                    }
                 }
             }
             for idx in 0..n_perm_cases() {
@@ -214,6 +217,25 @@ fn check_c10(text: &str, model: &MField, subst: bool) -> Vec<Viol> {
     let got = read_ll(&r);
     if got != *model {
         out.push(viol("lossless-reads-model", format!("field {:?}: got {:?} want {:?}", text, got, model)));
+    }
+    // the other views of the same tree agree with entries() / relations(): counts, emptiness, positional access, iter()
+    {
+        let es: Vec<String> = r.entries().map(|e| e.to_string()).collect();
+        let it: Vec<String> = r.iter().map(|e| e.to_string()).collect();
+        let by_index: Vec<Option<String>> = (0..=es.len()).map(|i| r.get_entry(i).map(|e| e.to_string())).collect();
+        let want_idx: Vec<Option<String>> = es.iter().cloned().map(Some).chain([None]).collect();
+        if r.len() != es.len() || r.is_empty() != es.is_empty() || it != es || by_index != want_idx {
+            out.push(viol("lossless-reads-model", format!("field {:?}: entries() yields {:?}, but len() {} is_empty() {} iter() {:?} get_entry(0..=len) {:?}", text, es, r.len(), r.is_empty(), it, by_index)));
+        }
+        for e in r.entries() {
+            let rs: Vec<String> = e.relations().map(|x| x.to_string()).collect();
+            let it: Vec<String> = e.iter().map(|x| x.to_string()).collect();
+            let by_index: Vec<Option<String>> = (0..=rs.len()).map(|i| e.get_relation(i).map(|x| x.to_string())).collect();
+            let want_idx: Vec<Option<String>> = rs.iter().cloned().map(Some).chain([None]).collect();
+            if e.len() != rs.len() || e.is_empty() != rs.is_empty() || it != rs || by_index != want_idx {
+                out.push(viol("lossless-reads-model", format!("field {:?} entry {:?}: relations() yields {:?}, but len() {} is_empty() {} iter() {:?} get_relation(0..=len) {:?}", text, e.to_string(), rs, e.len(), e.is_empty(), it, by_index)));
+            }
+        }
     }
     // a line break between the items of an architecture / profile list is error-free for the lossless reader, but the
     // statement promises free newlines only around separators, so the lossy reader is not required to take it
@@ -419,7 +441,7 @@ impl Prop for RelProp {
         "exploration"
     }
     fn rule(&self, _t: Tier) -> String {
-        "relationship fields are choice vectors over the slots of an ExA skeleton (1-3 entries x 1-3 alternatives): entry kind (relation entry / empty entry / substvar), whitespace around ',' and '|' and at field start/end (incl. newlines), trailing comma, and per relation name, archqual, operator, version (epoch, '~'), architecture list (negated or not), profile groups and whitespace between parts; every vector with <= k deviations is rendered with its model and read; additionally every identifier character (alphanumerics, '-', '.', '+', '~') inside a package name and inside a version, every order of three and of four relations with distinct names (with and without versions) and of three relations of one name with different versions, as entries and as alternatives, and the FULL product of the relation parts for a one-relation field x every single whitespace deviation; vectors whose deviation has no effect are skipped (all cases distinct); non-trivial = field with at least one deviation".into()
+        "relationship fields are choice vectors over the slots of an ExA skeleton (1-3 entries x 1-3 alternatives): entry kind (relation entry / empty entry / substvar), whitespace around ',' and '|' and at field start/end (incl. newlines), trailing comma, and per relation name, archqual, operator, version (epoch, '~'), architecture list (negated or not), profile groups and whitespace between parts; every vector with <= k deviations is rendered with its model and read; additionally every identifier character (alphanumerics, '-', '.', '+', '~') inside a package name, a version, an architecture name, an architecture qualifier, a profile name and a substitution variable, every order of three and of four relations with distinct names (with and without versions) and of three relations of one name with different versions, as entries and as alternatives, and the FULL product of the relation parts for a one-relation field x every single whitespace deviation; vectors whose deviation has no effect are skipped (all cases distinct); non-trivial = field with at least one deviation".into()
     }
     fn bounds(&self, t: Tier) -> Value {
         let per: Vec<Value> = skeletons().iter().map(|sk| json!({"skeleton": sk, "slots": menus(*sk).len(), "k": k_for(t, *sk), "vectors_upper_bound": kdev_count(&menus(*sk), k_for(t, *sk))})).collect();
@@ -448,6 +470,33 @@ impl Prop for RelProp {
                 let ms: Vec<MRel> = rels.into_iter().map(|(_, m)| m).collect();
                 let entries = if as_alternatives { vec![ms] } else { ms.into_iter().map(|m| vec![m]).collect() };
                 Some((text, MField { entries, substvars: vec![] }))
+            }
+            Some((cp, _)) if cp >= 0x1000 => {
+                // the identifier alphabet in the other places that hold an identifier: an architecture name, an architecture
+                // qualifier, a profile name, a substitution variable
+                let ch = char::from_u32(cp & 0xfff).unwrap_or('a');
+                let id = format!("x{}y", ch);
+                let mut m = MRel { name: "a".into(), archqual: None, version: None, archs: None, profiles: vec![] };
+                let mut substvars = vec![];
+                let text = match cp >> 12 {
+                    2 => {
+                        m.archs = Some(vec![id.clone(), format!("!{}", id)]);
+                        format!("a [{} !{}]", id, id)
+                    }
+                    3 => {
+                        m.archqual = Some(id.clone());
+                        format!("a:{}", id)
+                    }
+                    4 => {
+                        m.profiles = vec![vec![id.clone(), format!("!{}", id)]];
+                        format!("a <{} !{}>", id, id)
+                    }
+                    _ => {
+                        substvars.push(format!("${{{}:Z}}", id));
+                        format!("${{{}:Z}}, a", id)
+                    }
+                };
+                Some((text, MField { entries: vec![vec![m]], substvars }))
             }
             Some((cp, in_version)) => {
                 let ch = char::from_u32(cp).unwrap_or('a');
